@@ -657,10 +657,10 @@ func RunC12(c *core.Ctx) int {
 		}
 		builtin[n] = s
 	}
-	n := 300
+	n := 1200
 	budget := 170 * time.Second
 	if c.Tier == "thorough" {
-		n = 9000
+		n = 24000
 		budget = 28 * time.Minute
 	}
 	policies := []string{"asc", "desc", "random"}
